@@ -1285,6 +1285,22 @@ func execAnotherModule(vm *r.VM, libInfo r.LibNameInfo) (*r.Module, error) {
 			return nil, WrapRuntimeError(vm, err)
 		}
 
+		// the scopes opened while executing the module body have been closed by now, taking
+		// the module's own methods and types with them: declare them at the module's root
+		// scope, so that an imported method can still use its siblings when it is called later
+		exportValues := module.GetAllExportValues()
+		exportNames := make([]string, 0, len(exportValues))
+		for exportName := range exportValues {
+			exportNames = append(exportNames, exportName)
+		}
+		sort.Strings(exportNames)
+		for _, exportName := range exportNames {
+			if err := vm.DeclareConstElement(r.NewIDName(exportName), exportValues[exportName]); err != nil {
+				vm.PopCallFrameOnError(err)
+				return nil, WrapRuntimeError(vm, err)
+			}
+		}
+
 		vm.PopCallFrame()
 		return module, nil
 	}
